@@ -545,7 +545,7 @@ class KeysafeP(Parser):
 
 def run(ctx):
     thorough = ctx.tier == "thorough"
-    ctx.rule = ("every feature vector of spec/Gates.tla with at most two bad gates (689 states over 10 parsers) realised on an otherwise valid "
+    ctx.rule = ("every feature vector of spec/Gates.tla with at most two bad gates (11 parsers) realised on an otherwise valid "
                 "input; every single-gate fault expanded to every concrete value of its class (all single-bit flips of each magic, listed "
                 "version / geometry / method values, image types, cipher names, modes, locator kinds); non-trivial = vector with at least "
                 "one bad gate; distinct by (parser, gate set, concrete value)")
